@@ -425,6 +425,8 @@ def coq_term(case, out):
         if 'error' in out or not modelable(v):
             return None
         t = 'veqb (rt_model %s) %s' % (cval(sorted_keys(v)), cval(dec(out['back'])))
+        # the same with the sorting done by the model: the value in its own key order goes in, the value Python read comes out
+        t += ' && veqb (rt_sorted %s) %s' % (cval(v), cval(dec(out['back'])))
         # the JSON text layer: the printer model writes exactly the text the json module wrote, and the parser model reads
         # it as the tree the json module reads (no object hook); trees with binary floats are outside the text model
         tree = json.loads(out['text'], object_pairs_hook=lambda kv: ('obj', kv))
